@@ -81,10 +81,13 @@ def locOk (pre : String) (needles : List String) (loc : String) : Bool :=
 /-! ### `ip_version_from_location` for the URL grammar `scheme://[userinfo@]host[:port][/path]`,
     host ∈ {dotted quad, reg-name, `[IPv6]`, `[IPv6%zone]`} -/
 
-def splitOnC (c : Char) (l : List Char) : List (List Char) :=
-  l.foldr (fun x acc => if x == c then [] :: acc else match acc with
+def splitStep (c : Char) (x : Char) (acc : List (List Char)) : List (List Char) :=
+  if x == c then [] :: acc else
+    match acc with
     | [] => [[x]]
-    | a :: r => (x :: a) :: r) [[]]
+    | a :: r => (x :: a) :: r
+
+def splitOnC (c : Char) (l : List Char) : List (List Char) := l.foldr (splitStep c) [[]]
 
 def afterScheme : List Char → Option (List Char)
   | ':' :: '/' :: '/' :: r => some r
